@@ -1,9 +1,12 @@
 //! vprop — property-based checks for the 20 ast-grep properties in /verif/properties.jsonl.
+pub mod cli;
 pub mod engine;
 pub mod gen;
 pub mod langs;
 pub mod tsutil;
 
+pub mod c01;
+pub mod c01cli;
 pub mod c02;
 pub mod c03;
 pub mod c05;
@@ -43,9 +46,24 @@ pub fn replay_known<C: DeserializeOwned>(
   known: &Known,
   check: impl Fn(&C, &mut Stats) -> CheckResult,
 ) {
+  replay_known_staged(report, known, "", false, check)
+}
+
+/// Same, for properties whose stages have different case types: only witnesses whose
+/// replay file has `stage == stage` (want_match) or `stage != stage` (!want_match) are run.
+pub fn replay_known_staged<C: DeserializeOwned>(
+  report: &mut Report,
+  known: &Known,
+  stage: &str,
+  want_match: bool,
+  check: impl Fn(&C, &mut Stats) -> CheckResult,
+) {
   for e in &known.entries {
     let Some(w) = &e.witness else { continue };
     let path = Path::new(VERIF).join(w);
+    if path.exists() && !stage.is_empty() && (read_replay(&path).stage == stage) != want_match {
+      continue;
+    }
     if !path.exists() {
       report
         .inconclusive
